@@ -46,6 +46,8 @@
                   (string-cursor->index %string-cursor->index)
                   (string-cursor-next %string-cursor-next)
                   (string-cursor-prev %string-cursor-prev)
+                  (string-cursor-forward %string-cursor-forward)
+                  (string-cursor-back %string-cursor-back)
                   (string-fold %string-fold)
                   (string-fold-right %string-fold-right)
                   (string-contains %string-contains)
@@ -61,6 +63,14 @@
       (if (string-cursor? cursor)
           (%string-cursor-prev str cursor)
           (- cursor 1)))
+    (define (string-cursor-forward str cursor n)
+      (if (string-cursor? cursor)
+          (%string-cursor-forward str cursor n)
+          (+ cursor n)))
+    (define (string-cursor-back str cursor n)
+      (if (string-cursor? cursor)
+          (%string-cursor-back str cursor n)
+          (- cursor n)))
     (define (string-index->cursor str i)
       (if (string-cursor? i)
           i
